@@ -1,9 +1,123 @@
 import KG.Base.Json
-/-! Driver entry points for property C15 (filled in by the C15 model). -/
-namespace KG.Driver.C15
-open Lean
+import KG.Spec.Lifecycle
+/-!
+Driver entry points for C15 (removal / cancellation scopes).
 
-/-- `handle method args`: `none` when the method is unknown. -/
-def handle (_m : String) (_a : Json) : Option (Except String Json) := none
+* `C15.run {ops, keys, rids}` — replays a history on the model and returns the final state: clusters, endpoints,
+  name resolution for `keys`, request phases for `rids`, the oracle problems met on the way, and the verdict of
+  the Lean judge on the model's own observation.
+* `C15.judge {clusters, eps, reqs}` — the same judge on an observation made on the real code.
+
+ops: `{"op":"apply","name":hex,"aliases":[hex],"servers":[{"url":hex,"disabled":b}]}`, `{"op":"delete","name":hex}`,
+`{"op":"start","r":n,"host":hex}`, `{"op":"pick","r":n,"eid":i}` (i ≥ 0: the endpoint the code picked, -1: the code
+answered "no ready endpoints", -2: unknown), `{"op":"finish","r":n}`, `{"op":"health","url":hex,"ok":b}`.
+-/
+namespace KG.Driver.C15
+open Lean KG KG.Model.Lifecycle KG.Spec.Lifecycle
+
+def decodeServer (j : Json) : Except String (Str × Bool) := do
+  pure (← J.getHex j "url", ← J.getBool j "disabled")
+
+/-- one history step; returns the new state and an optional oracle problem -/
+def stepJson (st : State) (j : Json) : Except String (State × List String) := do
+  let op ← J.getStr j "op"
+  match op with
+  | "apply" =>
+    let servers ← (← J.getArr j "servers").toList.mapM decodeServer
+    let sp : Spec := { name := ← J.getHex j "name", aliases := ← J.getHexList j "aliases", servers := servers }
+    pure (step st (.apply sp), [])
+  | "delete" => pure (step st (.delete (← J.getHex j "name")), [])
+  | "start" => pure (step st (.reqStart (← J.getNat j "r") (← J.getHex j "host")), [])
+  | "finish" => pure (step st (.reqFinish (← J.getNat j "r")), [])
+  | "health" => pure (step st (.health (← J.getHex j "url") (← J.getBool j "ok")), [])
+  | "pick" =>
+    let r ← J.getNat j "r"
+    let eid ← J.getInt j "eid"
+    match st.reqs r with
+    | some (Phase.resolved o) =>
+      let cands := pickable st o
+      if eid == -2 then pure (step st (.reqPick r 0), [])
+      else if eid == -1 then
+        if cands.isEmpty then pure (step st (.reqPick r 0), [])
+        else pure (step st (.reqPick r 0), [s!"pick r={r}: the code found no ready endpoint, the model has {cands.length}"])
+      else
+        match cands.findIdx? (fun e => e.id == eid.toNat) with
+        | some i => pure (step st (.reqPick r i), [])
+        | none => pure (st, [s!"not-pickable r={r} eid={eid}"])
+    | _ => pure (st, [s!"pick r={r}: request is not waiting for an endpoint in the model"])
+  | _ => throw s!"unknown op {op}"
+
+def phaseJson (st : State) (r : Nat) : Json :=
+  let mk (p : String) (o eid : Int) (d : Bool) :=
+    J.obj [("r", J.nat r), ("phase", Json.str p), ("o", J.int o), ("eid", J.int eid), ("done", J.bool d)]
+  match st.reqs r with
+  | none => mk "none" (-1) (-1) false
+  | some Phase.rejected => mk "rejected" (-1) (-1) false
+  | some (Phase.resolved o) => mk "resolved" o (-1) false
+  | some (Phase.noEndpoint o) => mk "noEndpoint" o (-1) false
+  | some (Phase.proxying e o) => mk "proxying" o e (reqDone st r e o)
+  | some (Phase.finished e o) => mk "finished" o e (reqDone st r e o)
+
+def clusterJson (st : State) (o : Nat) : List Json :=
+  match st.heap o with
+  | none => []
+  | some c => [J.obj [("o", J.nat o), ("name", J.hex c.name), ("aliases", J.hexList c.aliases),
+                      ("done", J.bool (done st.cancels (clChain o))),
+                      ("resolvable", J.bool (st.names c.name == some o)),
+                      ("pickable", Json.arr ((pickable st o).map fun e => J.nat e.id).toArray)]]
+
+def epJson (st : State) (e : Ep) : Json :=
+  J.obj [("id", J.nat e.id), ("owner", J.nat e.owner), ("url", J.hex e.url), ("inMap", J.bool e.inMap),
+         ("disabled", J.bool e.disabled), ("healthy", J.bool e.healthy), ("hcOn", J.bool e.hcOn), ("hcGen", J.nat e.hcGen),
+         ("done", J.bool (done st.cancels e.chain)), ("hcLive", J.bool (hcLive st.cancels e)),
+         ("ready", J.bool (!e.disabled && e.healthy))]
+
+def optNat : Option Nat → Json
+  | some n => J.nat n
+  | none => J.int (-1)
+
+def doRun (a : Json) : Except String Json := do
+  let ops ← J.getArr a "ops"
+  let keys ← J.getHexList a "keys"
+  let rids ← (← J.getArr a "rids").toList.mapM (·.getNat?)
+  let mut st := init
+  let mut errs : List String := []
+  for j in ops do
+    let (s, e) ← stepJson st j
+    st := s
+    errs := errs ++ e
+  pure <| J.obj [
+    ("next", J.nat st.next),
+    ("clusters", Json.arr ((List.range st.next).flatMap (clusterJson st)).toArray),
+    ("eps", Json.arr (st.eps.map (epJson st)).toArray),
+    ("names", Json.arr (keys.map fun k => J.obj [("k", J.hex k), ("o", optNat (get st k))]).toArray),
+    ("reqs", Json.arr (rids.map (phaseJson st)).toArray),
+    ("errors", Json.arr (errs.map Json.str).toArray),
+    ("judge", J.bool (judge (observe st rids)))]
+
+def decodeObs (a : Json) : Except String Obs := do
+  let cs ← (← J.getArr a "clusters").toList.mapM fun j => do
+    pure ({ o := ← J.getNat j "o", resolvable := ← J.getBool j "resolvable", done := ← J.getBool j "done" } : ObsCluster)
+  let es ← (← J.getArr a "eps").toList.mapM fun j => do
+    pure ({ id := ← J.getNat j "id", owner := ← J.getNat j "owner", inMap := ← J.getBool j "inMap",
+            done := ← J.getBool j "done", hcLive := ← J.getBool j "hcLive" } : ObsEp)
+  let rs ← (← J.getArr a "reqs").toList.mapM fun j => do
+    pure ({ r := ← J.getNat j "r", eid := ← J.getNat j "eid", live := ← J.getBool j "live" } : ObsReq)
+  pure { clusters := cs, eps := es, reqs := rs }
+
+/-- the judge on an observation of the implementation, with the first offending items for the report -/
+def doJudge (a : Json) : Except String Json := do
+  let ob ← decodeObs a
+  let badC := (ob.clusters.filter (fun c => !clusterOk c)).map (fun c => J.nat c.o)
+  let badE := (ob.eps.filter (fun e => !epOk ob.clusters e)).map (fun e => J.nat e.id)
+  let badR := (ob.reqs.filter (fun q => !reqOk ob.eps q)).map (fun q => J.nat q.r)
+  pure <| J.obj [("ok", J.bool (judge ob)), ("clusters", Json.arr badC.toArray), ("eps", Json.arr badE.toArray),
+                 ("reqs", Json.arr badR.toArray)]
+
+def handle (m : String) (a : Json) : Option (Except String Json) :=
+  match m with
+  | "run" => some (doRun a)
+  | "judge" => some (doJudge a)
+  | _ => none
 
 end KG.Driver.C15
